@@ -574,7 +574,7 @@ func c05programCase(c *Ctx, p *c05Prog) {
 
 // ---- driver ------------------------------------------------------------------------------------------
 func runC05(c *Ctx) error {
-	c.Rule = "stream P: programs of the mini-language of coq/Spec/LexSpec.v over the names a,b,c,d,e,g — a fixed corpus (witnesses of the repaired defects first), all sequences of up to 3 (thorough: 4) statements from a pool of short scoping statements, and seeded random programs mixing global/block/function scopes, let, closures, recursion, defaults, argument counts below/equal/above, list and map literals with number and string keys, nested paths, dot and bracket access, len/add/del/concat, templates with single and multiple inheritance; non-trivial = at least one mark or probe; distinct by source text.  stream S: sequences of calls of the scope API (NewScope, NewChild, SetValue, SetLocalValue, GetValue with access paths over nested lists/maps incl. numeric and numeric-looking keys, negative and out-of-range indices); distinct by the sequence"
+	c.Rule = "stream P: programs of the mini-language of coq/Spec/LexSpec.v over the names a,b,c,d,e,g — a fixed corpus (witnesses of the repaired defects first), all sequences of up to 2 statements and a fixed fraction of the sequences of 3 (thorough: all of 3, a fraction of 4) from a pool of short scoping statements and from a pool of list built-in statements (result independence of concat / add / del: literals of different capacity, empty arguments, two calls on the same first argument, writes through results and arguments), and seeded random programs mixing global/block/function scopes, let, closures, recursion, defaults, argument counts below/equal/above, list and map literals with number and string keys, nested paths, dot and bracket access, len/add/del/concat, templates with single and multiple inheritance; non-trivial = at least one mark or probe; distinct by source text.  stream S: sequences of calls of the scope API (NewScope, NewChild, SetValue, SetLocalValue, GetValue with access paths over nested lists/maps incl. numeric and numeric-looking keys, negative and out-of-range indices); distinct by the sequence"
 	c.BeginCases("From Coq Require Import ZArith.\nFrom Ecal Require Import Common.Bytes Model.Scope Spec.LexSpec Run.RunC05.\nOpen Scope N_scope.", "case", 150)
 
 	if c.Replay != "" {
@@ -609,15 +609,17 @@ func runC05(c *Ctx) error {
 		c05scopeCase(c, d)
 	}
 	nex := 0
-	c05exhaustive(c.Pick(3, 4), c.Pick(9, 2), func(p *c05Prog) {
+	emit := func(p *c05Prog) {
 		if !c.Enough() {
 			c05programCase(c, p)
 			nex++
 		}
-	})
+	}
+	c05exhaustive(c05pool(), "exhaustive", []string{"a", "b"}, c.Pick(3, 4), c.Pick(14, 2), emit)
+	c05exhaustive(c05listPool(), "exhaustive-lists", []string{"a", "b", "c"}, c.Pick(3, 4), c.Pick(9, 3), emit)
 	c.Extra["exhaustive_programs"] = nex
 	g := &c05gen{c: c}
-	for i := 0; i < c.Pick(450, 12000) && !c.Enough(); i++ {
+	for i := 0; i < c.Pick(400, 12000) && !c.Enough(); i++ {
 		c05programCase(c, g.program())
 	}
 	for i := 0; i < c.Pick(200, 5000) && !c.Enough(); i++ {
